@@ -4,7 +4,8 @@ import json, os, sys
 ROOT = os.path.dirname(os.path.dirname(os.path.abspath(__file__)))
 sys.path.insert(0, ROOT)
 from vlib.config import PROPS
-from vlib.manifest_meta import META, HOOK_COMMITS, PENDING_REASON, NOT_APPLICABLE
+from vlib.manifest_meta import HOOK_COMMITS, PENDING_REASON, NOT_APPLICABLE
+META = {p: PROPS[p]['meta'] for p in PROPS if 'meta' in PROPS[p]}
 
 allp = [json.loads(l)["id"] for l in open(os.path.join(ROOT, "properties.jsonl"))]
 checks = []
